@@ -488,8 +488,15 @@ func (e *Engine) modItemType(con *Contract, callee *ssa.Function, item string) (
 		deref = true
 		item = item[1:]
 	}
+	derefRoot := false
+	if strings.HasPrefix(item, "(*") && strings.HasSuffix(item, ")") && !strings.Contains(item, ".") {
+		// (*p)[*]: the elements of the slice that p points to
+		derefRoot = true
+		item = item[2 : len(item)-1]
+	}
 	parts := strings.Split(item, ".")
 	var cur types.Type
+	defer func() { _ = derefRoot }()
 	for _, p := range callee.Params {
 		if p.Name() == parts[0] {
 			cur = p.Type()
@@ -513,6 +520,13 @@ func (e *Engine) modItemType(con *Contract, callee *ssa.Function, item string) (
 	}
 	if cur == nil {
 		return nil, "", fmt.Errorf("modifies: unknown root %q", parts[0])
+	}
+	if derefRoot {
+		p, ok := cur.Underlying().(*types.Pointer)
+		if !ok {
+			return nil, "", fmt.Errorf("modifies: (*%s) is not a pointer", parts[0])
+		}
+		cur = p.Elem()
 	}
 	var lastStruct types.Type
 	lastField := -1
